@@ -23,7 +23,7 @@ from .. import parserlab as lab
 from .. import factlab as fl
 
 LEVEL = "exploration"
-RULE = ("histories over a pool of 55 scripts (valid with differing requires, invalid, "
+RULE = ("histories over a pool of 57 scripts (valid with differing requires, invalid, "
         "truncated mid-string-list / mid-test-list / mid-block / mid-command, ending in "
         "comments, with name/description hash comments, scripts that name a comparator / "
         "capability / identifier which another script uses in a different role) and 14 factory steps + 1 commands-API step (definitions "
@@ -110,6 +110,10 @@ SCRIPTS = [
     'require "foobar"; keep;',
     'if foobar { keep; }',
     'keep :foobar;',
+    # text that has no UTF-8 encoding (a lone surrogate, as read with surrogateescape): handed
+    # to parse() as str; whatever happens must not depend on what the Parser did before
+    'keep "\udcff";',
+    '\n\nkeep;\n\udcc3\udca9 foobar;',
 ]
 
 # factory steps: (conditions, actions, matchtype)
@@ -157,7 +161,10 @@ def run_step(step, parsers):
     kind = step[0]
     if kind == "parse":
         _, sid, mode = step
-        data = SCRIPTS[sid].encode("utf-8")
+        try:
+            data = SCRIPTS[sid].encode("utf-8")
+        except UnicodeEncodeError:
+            data = SCRIPTS[sid]  # goes to parse() as str
         if mode == "reuse":
             p = parsers.setdefault("shared", lab.sl_parser.Parser())
         else:
@@ -231,7 +238,10 @@ def run_history(steps):
     for s in steps:
         if s[0] == "load":
             p = lab.sl_parser.Parser()
-            o = lab.parse(SCRIPTS[s[1]].encode("utf-8"), parser=p)
+            try:
+                o = lab.parse(SCRIPTS[s[1]].encode("utf-8"), parser=p)
+            except UnicodeEncodeError:
+                o = lab.parse(SCRIPTS[s[1]], parser=p)
             out.append(("load-parse", o.verdict()))
             if o.verdict() is True:
                 deferred.append(p)
